@@ -59,3 +59,38 @@ Theorem c36_lookup_path : forall w t q, wf w t -> wfp w q ->
   lookup_path w t [] q = spec_path w (to_slice t) q.
 Proof. exact lookup_path_spec. Qed.
 Print Assumptions c36_lookup_path.
+
+(* What the one caller of Intersects computes (Get || Intersects || Covers in the ippool
+   controller): some stored prefix overlaps the query. *)
+Theorem c36_overlap : forall w t q, wf w t -> wfp w q ->
+  tcovers w t q || tintersects w t q = spec_overlaps w (to_slice t) q.
+Proof.
+  intros w t q W Hq. rewrite (covers_spec_trie w q Hq t W), (intersects_spec_trie w q Hq t W).
+  unfold spec_covers, spec_intersects, spec_overlaps, overlaps.
+  induction (to_slice t) as [|e m IH]; simpl; auto.
+  rewrite <- IH.
+  destruct (covers w (fst e) q), (covers w q (fst e)), (existsb (fun e0 => covers w (fst e0) q) m); reflexivity.
+Qed.
+Print Assumptions c36_overlap.
+
+(* The specification oracle accepts every run of the model from the empty trie, for traces of
+   Update/Delete/Get/Covers/Intersects/LookupPath/ToSlice and host-address LPM.
+   PARTIAL: ClosestDescendants and LPM with a shorter-than-host query are not covered by a
+   theorem yet (c36_closest_descendants, c36_lpm_general of the design are missing); for those
+   two the oracle is applied to the implementation's and the model's outputs by the
+   correspondence run only. *)
+Theorem c36_model_meets_spec_partial : forall w ops,
+  forallb (op_wf w) ops = true -> forallb (op_proved w) ops = true ->
+  ok_trace w ops (run w Leaf ops) = true.
+Proof. intros w ops H1 H2. exact (model_meets_spec_partial w ops Leaf I H1 H2). Qed.
+Print Assumptions c36_model_meets_spec_partial.
+
+Example c36_model_meets_spec_nontrivial :
+  let ops := [OpUpdate (mkP 167772160 28) 1; OpUpdate (mkP 167772168 30) 2; OpUpdate (mkP 167772162 31) 3;
+              OpDelete (mkP 167772160 28); OpLPM (mkP 167772169 32); OpCovers (mkP 167772163 32);
+              OpIntersects (mkP 167772160 24); OpPath (mkP 167772162 31); OpSlice]%N in
+  forallb (op_wf 32) ops = true /\ forallb (op_proved 32) ops = true /\
+  run 32 Leaf ops = [ONone; ONone; ONone; ONone; OMatch (Some (mkP 167772168 30, 2%N)); OBool true;
+                     OBool true; OEntries [(mkP 167772162 31, 3%N)];
+                     OEntries [(mkP 167772162 31, 3%N); (mkP 167772168 30, 2%N)]].
+Proof. repeat split; vm_compute; reflexivity. Qed.
